@@ -635,6 +635,9 @@ def real_class_programs(pid, regs, rng, out, nprog, tier, per=8, staged=None):
                 for m, d, vp in dd:
                     if m == big:
                         style["def"][(m, d)] = same
+            # registration objects that come and go at run time: one or two further records for classes that are registered already
+            if not staged and rng.random() < 0.6:
+                style["dyn"] = [list(rng.choice(statements)) for _ in range(rng.randrange(1, 3))]
             scen.append((idx, classes, edges, statements, methods, dd, abstract, shapes, style))
         name = "real%d" % pi
         sources[name] = LE.program(name, scen, staged=bool(staged))
@@ -693,6 +696,54 @@ def wide_programs(pid, rng, out, nprog, tier):
     res = gen.build_and_run(sources, extra=(["-DNDEBUG"] if tier == "quick" else []))
     F.validate_program_outputs(pid, res, sources, out, pid.lower() + "-wide", "TraceYomm2_plain.cfg", "TraceYomm2.tla")
     out.notes.append("%d generated programs with a method of more than 64 definitions (nine real classes)" % len(sources))
+
+
+def plain_programs(pid, rng, out, nprog, tier, per=6):
+    """Hierarchies of classes without virtual functions (gen/plain_emit.py): `final` is the only route to dispatch on them.
+    Built with the checked (debug) default policy; one leaf class per scenario may be left unregistered."""
+    sys_path_gen()
+    import gen
+    import plain_emit as PE
+    sources = {}
+    for pi in range(nprog):
+        scen = []
+        for si in range(per):
+            off = 10 * (si + 1)
+            classes = [off + i for i in range(1, 5)]
+            parent = {classes[0]: None}
+            for i, c in enumerate(classes[1:], 1):
+                parent[c] = classes[rng.randrange(0, i)]
+            leaves = [c for c in classes if c not in parent.values()]
+            missing = rng.choice(leaves + [None])
+            reg = [c for c in classes if c != missing]
+
+            def anc(c):
+                a = []
+                while c is not None:
+                    a.append(c)
+                    c = parent[c]
+                return a
+            root = classes[0]
+            methods = [(1, rng.choice(["P", "NP", "PN"]), [root]), (2, rng.choice(["PNP", "PP"]), [root, root])]
+            mid = rng.choice(reg)
+            methods.append((3, "P", [mid]))
+            defs = [(1, d, [c]) for d, c in enumerate(reg) if rng.random() < 0.7]
+            defs += [(2, d, [rng.choice(reg), rng.choice(reg)]) for d in range(rng.randrange(0, 4))]
+            defs += [(3, d, [c]) for d, c in enumerate(reg) if mid in anc(c) and rng.random() < 0.6]
+            seen, dd = set(), []
+            for m, d, vp in defs:
+                if (m, tuple(vp)) not in seen:
+                    seen.add((m, tuple(vp)))
+                    dd.append((m, d, vp))
+            scen.append((si, classes, parent, missing, methods, dd))
+        sources["plain%d" % pi] = PE.program("plain%d" % pi, scen)
+    res = gen.build_and_run(sources)
+    F.validate_program_outputs(pid, res, sources, out, pid.lower() + "-plain", "TraceYomm2_dispatch.cfg", "TraceYomm2.tla")
+    n_unknown = sum(text.count('"res":"unknown"') for rc, text in res.values() if rc is not None)
+    if not out.rejections and not n_unknown:
+        raise C.ToolFailure("vacuous: no unregistered non-polymorphic class was presented to final")
+    out.notes.append("%d generated programs with non-polymorphic class hierarchies (x %d scenarios): final / final_virtual_ptr / make_virtual_shared, "
+                     "%d reports of an unregistered class" % (len(sources), per, n_unknown))
 
 
 def staged_run(pid, sources, stages, out, tier):
@@ -971,6 +1022,10 @@ def check_C07(tier, seed):
     F.execute_and_validate("C07", exe, scs, out, "c07-rnd", TCFG)
 
     dl_histories(out, tier)
+    # registration objects constructed and destroyed at run time inside generated real-class programs, under every policy of
+    # the programs (deferred ids among them): update after load, after unload, after loading again
+    lat = F.gen_registries("GenLat_P4any.cfg", out, module="GenLat.tla")
+    real_class_programs("C07", lat, rng, out, 8 if tier == "quick" else 80, tier)
 
     def drop_undef(lines):
         for i, ln in enumerate(lines):
@@ -1225,10 +1280,10 @@ def vptr_script(rng, sid, policies, n=None):
             return
         src = rng.choice(sorted(handles))
         k, dyn, shared = handles[src]
-        route = rng.choice(["copy", "move", "conv", "convmove", "cast"])
+        route = rng.choice(["copy", "move", "conv", "convmove", "cast", "assign", "assignmove", "assignmove"])
         if route in ("copy", "move"):
             k2 = k
-        elif route in ("conv", "convmove"):
+        elif route in ("conv", "convmove", "assign", "assignmove"):
             k2 = rng.randrange(0, k + 1)
         else:
             ok = [j for j in range(k, len(chain)) if chain[j] in anc[dyn]]
@@ -1364,6 +1419,7 @@ def check_C09(tier, seed):
     bare = [bare_vptr_script(rng, "vp-bare-%d" % i, VP_POLICIES, False) for i in range(60 if tier == "quick" else 1000)]
     bare += [bare_vptr_script(rng, "vp-early-%d" % i, ["ind", "indvec", "indfast"], True) for i in range(60 if tier == "quick" else 1000)]
     F.execute_and_validate("C09", exe, bare, out, "c09-bare", TCFG)
+    plain_programs("C09", rng, out, 4 if tier == "quick" else 40, tier)
 
     def other_object(ev):
         if ev.get("o", -1) >= 0 and ev["recv"]:
@@ -1504,6 +1560,8 @@ def check_C15(tier, seed):
     bare = [bare_vptr_script(rng, "c15-bare-%d" % i, CHECKED, False) for i in range(40 if tier == "quick" else 600)]
     bare += [bare_vptr_script(rng, "c15-early-%d" % i, ["ind"], True) for i in range(40 if tier == "quick" else 600)]
     F.execute_and_validate("C15", exe, bare, out, "c15-bare", TCFG)
+    # classes without virtual functions: only `final` applies to them; an unregistered one must be reported there
+    plain_programs("C15", rng, out, 4 if tier == "quick" else 40, tier)
     n_unknown_upd = 0
     for s in scs[:40]:
         def wrong_class(ev):
